@@ -989,15 +989,15 @@ Proof.
   rewrite <- (sim_res _ _ _ _ HS).
   destruct (optN_is (resolved s0) (epoch_of spe t)).
   - simpl. rewrite expected_exp_for.
-    apply (tick_loop_sim D spe Hs t types s0 g sc s' sc' exp HS Hex Hwf H).
+    apply (tick_loop_sim D spe HD Hs t types s0 g sc s' sc' exp HS Hex Hwf H).
   - destruct sc as [|rn sc0]; [discriminate|].
     simpl in Hwf. apply andb_true_iff in Hwf. destruct Hwf as [Hwrn Hwf0].
     destruct (resolve spe s0 t rn) as [s1|] eqn:Er; [|discriminate].
     assert (Hb : t <= t) by lia.
     assert (Hep : epoch_of spe t <= epoch_of spe t + 1) by lia.
-    destruct (resolve_sim spe Hs t s0 g t rn s1 HS Hb Hep Hwrn Er) as [HS1 [Hex1 [Hnow1 [Htr1 [Hgn1 _]]]]].
+    destruct (resolve_sim D spe HD Hs t s0 g t rn s1 HS Hb Hep Hwrn Er) as [HS1 [Hex1 [Hnow1 [Htr1 [Hgn1 _]]]]].
     rewrite Hex in Hex1. simpl. rewrite expected_exp_for.
-    destruct (tick_loop_sim D spe Hs t types s1 (gres spe g t rn) sc0 s' sc' exp HS1 Hex1 Hwf0 H) as [He [A [B [C [E F]]]]].
+    destruct (tick_loop_sim D spe HD Hs t types s1 (gres spe g t rn) sc0 s' sc' exp HS1 Hex1 Hwf0 H) as [He [A [B [C [E F]]]]].
     split; [exact He|]. simpl. split; [exact A|]. split; [exact B|]. split; [congruence|]. split; congruence.
 Qed.
 
@@ -1037,7 +1037,7 @@ Proof.
         apply HT in Hin. rewrite (Hduty tr Htr) in Hin. simpl in Hin. lia.
       * apply NoDup_nodup_duty.
         destruct (same_set_keys trig_eqb trig_duty outs exp trig_eqb_duty Ess) as [Hlen [_ Hincl]].
-        apply (NoDup_incl_NoDup (map trig_duty exp)).
+        apply (@NoDup_incl_NoDup _ (map trig_duty exp)).
         -- rewrite Hexp, expected_exp_for. apply exp_for_nodup. apply types_nodup.
         -- rewrite !map_length. rewrite Hlen. apply le_n.
         -- exact Hincl.
@@ -1082,3 +1082,216 @@ Theorem run_monitor t0 ls s :
 Proof. intros Hwf H. apply (run_monitor_from (init D t0) (ginit t0) ls s (inv_init t0) Hwf H). Qed.
 
 End Main.
+
+(* ---- Prop-level readings of the monitor ---- *)
+
+Definition all_triggers (ls : list label) : list trigger :=
+  flat_map (fun l => match l with LTick _ _ outs => outs | _ => [] end) ls.
+
+Definition tick_slots (ls : list label) : list N :=
+  flat_map (fun l => match l with LTick t _ _ => [t] | _ => [] end) ls.
+
+Definition is_reorg (l : label) : bool := match l with LReorg _ => true | _ => false end.
+
+(* Where an item of the log comes from: a resolveDuties call [rn] for [slot]. *)
+Definition item_from (spe : N) (it : item) (slot : N) (rn : resn) : Prop :=
+  exists vals, r_vals rn = Some vals /\
+    i_act it = filter (is_active (epoch_of spe slot)) vals /\
+    i_slot it = slot /\ i_ep it = epoch_of spe slot /\
+    match i_kind it with
+    | KAtt => ok_res (r_att rn) = Some (i_ents it)
+    | KPro => ok_res (r_pro rn) = Some (i_ents it)
+    | KSync => ok_res (r_sync rn) = Some (i_ents it)
+    end.
+
+Section Readings.
+Variable D spe : N.
+Hypothesis HD : 0 < D.
+Hypothesis Hs : 0 < spe.
+
+Lemma gres_shape g slot rn :
+  exists more, g_log (gres spe g slot rn) = g_log g ++ more
+    /\ (forall it, In it more -> item_from spe it slot rn)
+    /\ g_trig (gres spe g slot rn) = g_trig g /\ g_now (gres spe g slot rn) = g_now g.
+Proof.
+  unfold gres.
+  destruct (r_vals rn) as [vals|] eqn:Ev.
+  2:{ exists []. rewrite app_nil_r. repeat split; try reflexivity. intros it []. }
+  destruct (filter (is_active (epoch_of spe slot)) vals) as [|v0 act0] eqn:Eact.
+  { exists []. simpl. rewrite app_nil_r. repeat split; try reflexivity. intros it []. }
+  rewrite <- Eact.
+  destruct (ok_res (r_att rn)) as [la|] eqn:Ea.
+  2:{ exists []. rewrite app_nil_r. repeat split; try reflexivity. intros it []. }
+  set (ia := I KAtt (epoch_of spe slot) slot (filter (is_active (epoch_of spe slot)) vals) la).
+  assert (Hia : item_from spe ia slot rn) by (exists vals; simpl; auto).
+  destruct (aborted ia).
+  { exists [ia]. repeat split; try reflexivity. intros it [<-|[]]. exact Hia. }
+  destruct (ok_res (r_pro rn)) as [lp|] eqn:Ep.
+  2:{ exists [ia]. repeat split; try reflexivity. intros it [<-|[]]. exact Hia. }
+  set (ip := I KPro (epoch_of spe slot) slot (filter (is_active (epoch_of spe slot)) vals) lp).
+  assert (Hip : item_from spe ip slot rn) by (exists vals; simpl; auto).
+  destruct (aborted ip).
+  { exists [ia; ip]. simpl. rewrite <- app_assoc. repeat split; try reflexivity. intros it [<-|[<-|[]]]; assumption. }
+  destruct (ok_res (r_sync rn)) as [ls|] eqn:Esy.
+  2:{ exists [ia; ip]. simpl. rewrite <- app_assoc. repeat split; try reflexivity. intros it [<-|[<-|[]]]; assumption. }
+  set (isy := I KSync (epoch_of spe slot) slot (filter (is_active (epoch_of spe slot)) vals) ls).
+  assert (Hisy : item_from spe isy slot rn) by (exists vals; simpl; auto).
+  exists [ia; ip; isy].
+  destruct (aborted isy); simpl; rewrite <- !app_assoc; repeat split; try reflexivity;
+    intros it [<-|[<-|[<-|[]]]]; assumption.
+Qed.
+
+Lemma g_first_shape g t sc :
+  exists more, g_log (fst (g_first spe g t sc)) = g_log g ++ more
+    /\ (forall it, In it more -> exists rn, In rn sc /\ item_from spe it t rn)
+    /\ g_trig (fst (g_first spe g t sc)) = g_trig g /\ g_now (fst (g_first spe g t sc)) = g_now g
+    /\ incl (snd (g_first spe g t sc)) sc.
+Proof.
+  unfold g_first. destruct (optN_is (g_resolved g) (epoch_of spe t)).
+  - exists []. simpl. rewrite app_nil_r. repeat split; try reflexivity; [intros it [] | apply incl_refl].
+  - destruct sc as [|rn sc0].
+    + exists []. simpl. rewrite app_nil_r. repeat split; try reflexivity; [intros it [] | apply incl_refl].
+    + simpl. destruct (gres_shape g t rn) as [more [H1 [H2 [H3 H4]]]]. exists more.
+      repeat split; try assumption.
+      * intros it Hit. exists rn. split; [left; reflexivity | apply H2; exact Hit].
+      * apply incl_tl. apply incl_refl.
+Qed.
+
+Lemma g_rest_shape k g slot sc :
+  exists more, g_log (g_rest spe k g slot sc) = g_log g ++ more
+    /\ (forall it, In it more -> exists rn, In rn sc /\ item_from spe it slot rn)
+    /\ g_trig (g_rest spe k g slot sc) = g_trig g /\ g_now (g_rest spe k g slot sc) = g_now g.
+Proof.
+  revert g sc. induction k as [|k IH]; intros g sc.
+  - exists []. simpl. rewrite app_nil_r. repeat split; try reflexivity. intros it [].
+  - destruct sc as [|rn sc0].
+    + exists []. simpl. rewrite app_nil_r. repeat split; try reflexivity. intros it [].
+    + simpl. destruct (gres_shape g slot rn) as [m1 [A1 [A2 [A3 A4]]]].
+      destruct (IH (gres spe g slot rn) sc0) as [m2 [B1 [B2 [B3 B4]]]].
+      exists (m1 ++ m2). rewrite B1, A1, app_assoc. repeat split; try congruence.
+      intros it Hit. apply in_app_or in Hit. destruct Hit as [Hit|Hit].
+      * exists rn. split; [left; reflexivity | apply A2; exact Hit].
+      * destruct (B2 it Hit) as [rn' [Hin Hf]]. exists rn'. split; [right; exact Hin | exact Hf].
+Qed.
+
+(* The ghost after a tick: the log grows by items of this tick's resolutions, triggers are appended. *)
+Lemma gstep_tick_shape g t sc outs :
+  exists more, g_log (gstep D spe g (LTick t sc outs)) = g_log g ++ more
+    /\ (forall it, In it more -> exists rn slot, In rn sc /\ (slot = t \/ slot = t + 1) /\ item_from spe it slot rn)
+    /\ g_trig (gstep D spe g (LTick t sc outs)) = g_trig g ++ map trig_duty outs
+    /\ g_now (gstep D spe g (LTick t sc outs)) = g_now g.
+Proof.
+  unfold gstep. destruct (g_first_shape g t sc) as [m1 [A1 [A2 [A3 [A4 A5]]]]].
+  destruct (g_first spe g t sc) as [g1 sc1]. simpl in A1, A3, A4, A5.
+  set (k := if last_in_epoch spe t then length (expected D spe (g_log g1) t) else 0%nat).
+  destruct (g_rest_shape k g1 (t + 1) sc1) as [m2 [B1 [B2 [B3 B4]]]].
+  exists (m1 ++ m2). simpl. rewrite B1, A1, app_assoc, B3, A3, B4, A4. repeat split; try reflexivity.
+  intros it Hit. apply in_app_or in Hit. destruct Hit as [Hit|Hit].
+  - destruct (A2 it Hit) as [rn [Hin Hf]]. exists rn, t. auto.
+  - destruct (B2 it Hit) as [rn [Hin Hf]]. exists rn, (t + 1). split; [apply A5; exact Hin | auto].
+Qed.
+
+Lemma ghost_after_app g a b : ghost_after D spe g (a ++ b) = ghost_after D spe (ghost_after D spe g a) b.
+Proof. revert g. induction a as [|l r IH]; intro g; simpl; [reflexivity | apply IH]. Qed.
+
+Lemma monitor_from_app g a b :
+  monitor_from D spe g (a ++ b) = monitor_from D spe g a && monitor_from D spe (ghost_after D spe g a) b.
+Proof.
+  revert g. induction a as [|l r IH]; intro g; simpl; [reflexivity|].
+  rewrite IH, andb_assoc. reflexivity.
+Qed.
+
+Lemma monitor_at g pre l post :
+  monitor_from D spe g (pre ++ l :: post) = true -> check D spe (ghost_after D spe g pre) l = true.
+Proof.
+  rewrite monitor_from_app. intro H. apply andb_true_iff in H. destruct H as [_ H]. simpl in H.
+  apply andb_true_iff in H. tauto.
+Qed.
+
+(* -- at most once -- *)
+
+Lemma at_most_once_from g ls :
+  NoDup (g_trig g) -> monitor_from D spe g ls = true ->
+  NoDup (g_trig g ++ map trig_duty (all_triggers ls))
+  /\ g_trig (ghost_after D spe g ls) = g_trig g ++ map trig_duty (all_triggers ls).
+Proof.
+  revert g. induction ls as [|l r IH]; intros g Hnd H.
+  - simpl. rewrite app_nil_r. auto.
+  - simpl in H. apply andb_true_iff in H. destruct H as [Hc Hm].
+    destruct l as [dt|t sc outs|ep|].
+    + apply (IH (gstep D spe g (LAdv dt)) Hnd Hm).
+    + destruct (gstep_tick_shape g t sc outs) as [more [_ [_ [Htr _]]]].
+      assert (Hnd' : NoDup (g_trig g ++ map trig_duty outs)).
+      { unfold check in Hc. destruct (g_first spe g t sc) as [g1 sc1].
+        apply andb_true_iff in Hc. destruct Hc as [Hc _]. apply andb_true_iff in Hc. destruct Hc as [Hc H3].
+        apply andb_true_iff in Hc. destruct Hc as [_ H2].
+        apply nodup_duty_NoDup in H3. rewrite forallb_forall in H2.
+        clear - Hnd H2 H3. induction (g_trig g) as [|d l IHl]; [exact H3|].
+        simpl. inversion Hnd as [|? ? Hd Hl]; subst. constructor.
+        2:{ apply IHl; [exact Hl|]. intros x Hx. specialize (H2 x Hx). simpl in H2.
+            apply negb_true_iff in H2. apply orb_false_iff in H2. apply negb_true_iff. tauto. }
+        intro Hin. apply in_app_or in Hin. destruct Hin as [Hin|Hin]; [contradiction|].
+        apply in_map_iff in Hin. destruct Hin as [tr [Htr Hin]]. specialize (H2 tr Hin).
+        apply negb_true_iff in H2. apply mem_duty_false in H2. apply H2. rewrite Htr. left. reflexivity. }
+      rewrite <- Htr in Hnd'. destruct (IH _ Hnd' Hm) as [A B].
+      simpl. rewrite map_app, app_assoc, <- Htr. split; assumption.
+    + assert (Ht : g_trig (gstep D spe g (LReorg ep)) = g_trig g).
+      { simpl. destruct (g_resolved g); [destruct (ep <? n)|]; reflexivity. }
+      rewrite <- Ht in Hnd. destruct (IH _ Hnd Hm) as [A B]. rewrite Ht in A, B. simpl. split; assumption.
+    + apply (IH (gstep D spe g LQuiet) Hnd Hm).
+Qed.
+
+Theorem trigger_at_most_once t0 ls :
+  monitor D spe t0 ls = true -> NoDup (map trig_duty (all_triggers ls)).
+Proof.
+  intro H. destruct (at_most_once_from (ginit t0) ls (NoDup_nil _) H) as [A _]. exact A.
+Qed.
+
+(* -- what a tick triggers -- *)
+
+Definition log_at (t0 : N) (pre : list label) (t : N) (sc : list resn) : list item :=
+  g_log (fst (g_first spe (ghost_after D spe (ginit t0) pre) t sc)).
+
+Definition now_after (t0 : N) (pre : list label) : N := g_now (ghost_after D spe (ginit t0) pre).
+
+Lemma trig_eqb_fields a b :
+  trig_eqb a b = true ->
+  t_ty a = t_ty b /\ t_slot a = t_slot b /\ t_deadline a = t_deadline b
+  /\ length (t_defs a) = length (t_defs b) /\ incl (t_defs a) (t_defs b) /\ incl (t_defs b) (t_defs a).
+Proof.
+  unfold trig_eqb. rewrite !andb_true_iff. intros [[[H1 H2] H3] H4].
+  apply dtype_eqb_eq in H1. apply N.eqb_eq in H2. apply optN_eqb_eq in H4.
+  apply (same_set_spec def_eqb _ _ def_eqb_eq) in H3. tauto.
+Qed.
+
+Theorem tick_triggers t0 ls pre t sc outs post :
+  monitor D spe t0 ls = true -> ls = pre ++ LTick t sc outs :: post ->
+  t * D <= now_after t0 pre /\
+  (forall tr, In tr outs ->
+     In (t_ty tr) types /\ t_slot tr = t /\ t_deadline tr = deadline D (t_ty tr) t /\
+     t_defs tr <> [] /\ NoDup (map fst (t_defs tr)) /\
+     (forall x, In x (t_defs tr) <-> In x (query spe (log_at t0 pre t sc) (t_ty tr, t)))) /\
+  (forall ty, In ty types -> query spe (log_at t0 pre t sc) (ty, t) <> [] ->
+     exists tr, In tr outs /\ t_ty tr = ty /\ t_slot tr = t).
+Proof.
+  intros Hm ->. apply monitor_at in Hm. unfold check in Hm. unfold log_at, now_after.
+  destruct (g_first spe (ghost_after D spe (ginit t0) pre) t sc) as [g1 sc1]. simpl.
+  apply andb_true_iff in Hm. destruct Hm as [Hm Hss]. apply andb_true_iff in Hm. destruct Hm as [Hm _].
+  apply andb_true_iff in Hm. destruct Hm as [Hst _]. apply N.leb_le in Hst.
+  split; [exact Hst|]. rewrite expected_exp_for in Hss. split.
+  - intros tr Htr. destruct (same_set_in_l trig_eqb _ _ tr Hss Htr) as [y [Hy Hey]].
+    apply trig_eqb_fields in Hey. destruct Hey as [E1 [E2 [E3 [E4 [E5 E6]]]]].
+    apply exp_for_in in Hy. destruct Hy as [Y1 [Y2 [Y3 [Y4 Y5]]]].
+    rewrite E1, E2, E3. repeat split; try assumption.
+    + intro Hnil. rewrite Hnil in E4. destruct (t_defs y); [congruence | discriminate].
+    + (* distinct public keys: same length as a duplicate-free list that includes it *)
+      apply (@NoDup_incl_NoDup _ (map fst (t_defs y))).
+      * rewrite Y3. unfold query. apply first_wins_nodup. constructor.
+      * rewrite !map_length. rewrite E4. apply le_n.
+      * intros p Hp. apply in_map_iff in Hp. destruct Hp as [x [<- Hx]]. apply in_map. apply E6. exact Hx.
+    + intro Hx. rewrite <- Y3. apply E5. exact Hx.
+    + intro Hx. rewrite <- Y3 in Hx. apply E6. exact Hx.
+  - intros ty Hty Hne. pose proof (exp_for_complete D spe (g_log g1) t types ty Hty Hne) as Hin.
+    destruct (same_set_in_r trig_eqb _ _ _ Hss Hin) as [x [Hx Hex]].
+    apply trig_eqb_fields in Hex. simpl in Hex. exists x. destruct Hex as [E1 [E2 _]]. auto.
+Qed.
